@@ -422,6 +422,25 @@ Theorem prom_select_rows_all_hints : forall (re_match re_full : string -> string
 Proof. intros re_match re_full Hl. intros. now apply (prom_rows_all_hints re_match re_full Hl). Qed.
 Print Assumptions prom_select_rows_all_hints.
 
+(* Each selected series is handed to the engine ONCE, with ascending timestamps, whatever the hints of the raw path
+   (prom_select_exact is the case Step = 0): the row loop over the rows of the statement (= hinted_rows of the Prometheus
+   meaning) yields one series per fingerprint, only fingerprints of stored series satisfying every matcher, each holding the
+   rows of its fingerprint in order: the hypothesis of seek_contract_on_selected_series. *)
+Theorem prom_select_once_for_all_hints : forall (re_match re_full : string -> string -> bool),
+  (forall v p, re_match v (anchor p) = re_full v p) ->
+  forall cluster dbname h ms db, use_raw_data h = true -> (is_instant (h_func h) = true -> 0 <= h_step h) ->
+    db_ok (from_day (h_start h * 1000000)) (d_gin db) (d_series db) ->
+    selective re_full ms = true -> (List.length ms <= 63)%nat ->
+    exists rows, prom_query_rows re_match re_full cluster dbname h ms db = Some rows /\
+      rows = hinted_rows h (expected_rows re_full h ms db) /\
+      let ss := select_loop (snd (querier_transpile re_full cluster dbname h ms)) rows in
+      NoDup (map ps_fp ss) /\
+      (forall fp, List.In fp (map ps_fp ss) -> List.In fp (expected_fps re_full (from_day (h_start h * 1000000)) ms (d_series db))) /\
+      (forall s, List.In s ss ->
+         ps_samples s = rows_of (ps_fp s) rows /\ StronglySorted Z.le (map fst (ps_samples s))).
+Proof. intros re_match re_full Hl. intros. now apply (prom_select_once_all_hints re_match re_full Hl). Qed.
+Print Assumptions prom_select_once_for_all_hints.
+
 (* EXACT on the bucket grid: the bucketed series shows what Prometheus shows at T = Start + j*Step if and only if no
    stale edge occurs at T (the latest sample is older than the look-back, the end of its bucket is not): the finding
    step-bucket-staleness-edge is exactly the complement *)
@@ -492,6 +511,12 @@ Theorem labels_request_sql_meaning : forall re_match cluster fps from_ms to_ms s
   Some (fetch_rows (from_day (from_ms * 1000000)) (to_ms / 86400000) fps series).
 Proof. exact eval_labels_fetch. Qed.
 Print Assumptions labels_request_sql_meaning.
+
+(* hence prom_select_exact_series speaks about Select with BOTH statements answered by the interpreter *)
+Theorem prom_select_both_statements_interpreted : forall re_match re_full cluster dbname h ms db,
+  prom_select_sql re_match re_full cluster dbname h ms db = prom_select re_match re_full cluster dbname h ms db.
+Proof. exact prom_select_sql_eq. Qed.
+Print Assumptions prom_select_both_statements_interpreted.
 
 Theorem string_of_N_injective : forall a b, string_of_N a = string_of_N b -> a = b.
 Proof. exact string_of_N_inj. Qed.
